@@ -84,7 +84,7 @@ PROPS = {
         stages=[dict(name="listener", pkg="./layer4/", test="TestVerifListener", files=L4 + ["layer4/verif_route_test.go", "layer4/verif_listener_test.go", "layer4/verif_hooks_test.go"], nq=30, nt=300, lean=False,
                      only_sigs=["cross-talk", "delivered-stream", "terminal-stream", "data-race"]),
                 dict(name="lbconc", pkg="./modules/l4proxy/", test="TestVerifLBConcurrent", files=PROXY + ["modules/l4proxy/verif_conc_test.go"], nq=6, nt=40, lean=False),
-                dict(FULLSTACK, only_sigs=["cross-talk", "misrouted"]),
+                dict(FULLSTACK, only_sigs=["cross-talk", "misrouted", "wrapper-handoff"]),
                 # the race detector as witness search for the access table (both tiers; small counts under -race)
                 dict(name="race-listener", streams=["listener"], pkg="./layer4/", test="TestVerifListener", files=L4 + ["layer4/verif_route_test.go", "layer4/verif_listener_test.go", "layer4/verif_hooks_test.go"],
                      nq=8, nt=60, lean=False, goflags=["-race"], only_sigs=["cross-talk", "delivered-stream", "terminal-stream", "data-race"]),
